@@ -29,15 +29,19 @@ func init() { register("C16", "fault_enumeration", runC16) }
 
 type c16Session struct {
 	Method   string
-	Monitors int   // 1 or 2
-	Away     int   // bitmask over the away transactions
-	Cut      int   // message index (on the connection CutConn) before which the connection is cut; -1 = none
-	CutConn  int   // connection number the cut applies to
-	Cut2     int   // second cut: message index on the connection after CutConn; -1 = none
-	After    bool  // cut right after forwarding the message instead of before it
+	Monitors int  // 1 or 2
+	Away     int  // bitmask over the away transactions
+	Cut      int  // message index (on the connection CutConn) before which the connection is cut; -1 = none
+	CutConn  int  // connection number the cut applies to
+	Cut2     int  // second cut: message index on the connection after CutConn; -1 = none
+	After    bool // cut right after forwarding the message instead of before it
+	Silent   bool // instead of closing, the peer goes silent at that message (client built with the inactivity check)
 }
 
 func (s c16Session) String() string {
+	if s.Silent {
+		return fmt.Sprintf("method=%s monitors=%d away=%03b peer silent from conn%d/msg%d on (inactivity probe)", s.Method, s.Monitors, s.Away, s.CutConn, s.Cut)
+	}
 	return fmt.Sprintf("method=%s monitors=%d away=%03b cut=conn%d/msg%d(after=%v) cut2=%d", s.Method, s.Monitors, s.Away, s.CutConn, s.Cut, s.After, s.Cut2)
 }
 
@@ -59,7 +63,7 @@ func c16Script() (setup []rm.Op, t1, t2 []rm.Op, marker rm.Op, away [][]rm.Op) {
 	away = [][]rm.Op{
 		{opInsert("N1", uN1[2], rm.Row{"name": str("a3-away")}), opMutate("R", uR[0], "sset", "insert", uset(uN1[2]))}, // insert
 		{opUpdate("N1", uN1[1], rm.Row{"name": str("a2-away")}), opUpdate("R", uR[0], rm.Row{"name": str("r1-away")})}, // modify cached rows
-		{opMutate("R", uR[0], "sset", "delete", uset(uN1[0])), opDelete("PR", uPR[0])},                               // delete cached rows (a1, b1 collected)
+		{opMutate("R", uR[0], "sset", "delete", uset(uN1[0])), opDelete("PR", uPR[0])},                                 // delete cached rows (a1, b1 collected)
 	}
 	return
 }
@@ -207,10 +211,27 @@ func c16Run(r *ev.Run, s c16Session, record bool) (msgs []e2e.Msg) {
 	var mu sync.Mutex
 	cutDone := 0
 	cutAt := make(chan int, 4)
+	// message numbers count what the session itself exchanges: the echo probes of the inactivity check (silent-peer sessions)
+	// come at times of their own and are left out
+	logical := map[int]int{}      // connection -> number of non-probe messages seen
+	probeIDs := map[string]bool{} // "conn/id" of echo requests
+	silenced := map[int]bool{}
 	px.Decide = func(m e2e.Msg) e2e.Decision {
 		mu.Lock()
 		defer mu.Unlock()
-		hit := (cutDone == 0 && s.Cut >= 0 && m.Conn == s.CutConn && m.Index == s.Cut) || (cutDone == 1 && s.Cut2 >= 0 && m.Conn > s.CutConn && m.Index == s.Cut2)
+		if m.Dir == "c2s" && m.Method == "echo" {
+			probeIDs[fmt.Sprint(m.Conn, "/", m.ID)] = true
+			return e2e.Forward
+		}
+		if silenced[m.Conn] && m.Dir == "s2c" {
+			return e2e.Swallow
+		}
+		if m.Dir == "s2c" && m.IsResp && probeIDs[fmt.Sprint(m.Conn, "/", m.ID)] {
+			return e2e.Forward
+		}
+		idx := logical[m.Conn]
+		logical[m.Conn]++
+		hit := (cutDone == 0 && s.Cut >= 0 && m.Conn == s.CutConn && idx == s.Cut) || (cutDone == 1 && s.Cut2 >= 0 && m.Conn > s.CutConn && idx == s.Cut2)
 		if !hit {
 			return e2e.Forward
 		}
@@ -218,13 +239,27 @@ func c16Run(r *ev.Run, s c16Session, record bool) (msgs []e2e.Msg) {
 		if cutDone == 1 {
 			px.SetAccept(false) // the client stays away until the away transactions are committed
 		}
+		if s.Silent {
+			// the peer goes silent instead of closing: nothing more reaches the client on this connection; it has to notice
+			// through its inactivity probe
+			silenced[m.Conn] = true
+			cutAt <- m.Conn
+			if m.Dir == "s2c" {
+				return e2e.Swallow
+			}
+			return e2e.Forward
+		}
 		cutAt <- m.Conn
 		if s.After {
 			return e2e.CutAfter
 		}
 		return e2e.CutBefore
 	}
-	c := e2e.NewClient(dbs, px.Sock, client.WithReconnect(2*time.Second, backoff.NewConstantBackOff(time.Millisecond)))
+	opt := client.WithReconnect(2*time.Second, backoff.NewConstantBackOff(time.Millisecond))
+	if s.Silent {
+		opt = client.WithInactivityCheck(80*time.Millisecond, 2*time.Second, backoff.NewConstantBackOff(time.Millisecond))
+	}
+	c := e2e.NewClient(dbs, px.Sock, opt)
 	defer c.Close()
 	ctx, cancel := context.WithTimeout(context.Background(), 20*time.Second)
 	defer cancel()
@@ -273,6 +308,7 @@ func c16Run(r *ev.Run, s c16Session, record bool) (msgs []e2e.Msg) {
 			return false
 		}
 	}
+	silentUndetected := false
 	var settle func(depth int) bool
 	settle = func(depth int) bool {
 		// a server that does not wait for acknowledgements returns from a transaction while its notification (and the cut it
@@ -282,6 +318,11 @@ func c16Run(r *ev.Run, s c16Session, record bool) (msgs []e2e.Msg) {
 			select {
 			case conn := <-cutAt:
 				lastCutConn = conn
+				if s.Silent && !px.WaitClosed(conn, 8*time.Second) {
+					// 100 inactivity periods have passed and the client still holds on to the silent connection
+					silentUndetected = true
+					return false
+				}
 				if !awayDone {
 					awayDone = true
 					for i, a := range away {
@@ -329,6 +370,10 @@ func c16Run(r *ev.Run, s c16Session, record bool) (msgs []e2e.Msg) {
 				stuck = append(stuck, g)
 			}
 		}
+		if silentUndetected {
+			r.Violation("c16.silent-peer-not-detected."+feature+"."+step, fmt.Sprintf("[%s] at step %q the peer went silent; 8 s (100 inactivity periods) later the client has not given the connection up", s, step), cse("silent peer not detected"))
+			return false
+		}
 		c := cse("no reconnect").(map[string]interface{})
 		c["client_goroutines"] = stuck
 		c["forwarded"] = summarize(px.ForwardedMsgs())
@@ -339,7 +384,10 @@ func c16Run(r *ev.Run, s c16Session, record bool) (msgs []e2e.Msg) {
 	// 1. connect (retried: Connect itself does not reconnect)
 	connected := false
 	for try := 0; try < 4 && !connected; try++ {
-		if err := c.Connect(ctx); err == nil {
+		cctx, ccancel := context.WithTimeout(ctx, 1500*time.Millisecond) // no probe runs yet while connecting: a silent peer is met by the caller's deadline
+		err := c.Connect(cctx)
+		ccancel()
+		if err == nil {
 			connected = true
 			break
 		}
@@ -376,7 +424,15 @@ func c16Run(r *ev.Run, s c16Session, record bool) (msgs []e2e.Msg) {
 			for _, t := range tn {
 				m.Tables = append(m.Tables, client.TableMonitor{Table: t})
 			}
-			_, err := c.Monitor(ctx, m)
+			// a call in flight holds the client's rpc lock, which keeps the inactivity probe from disconnecting: with a silent
+			// peer the call ends when its own deadline does (noted in DESIGN.md), so silent-peer sessions give it a short one
+			callT := 20 * time.Second
+			if s.Silent {
+				callT = 1200 * time.Millisecond
+			}
+			mctx, mcancel := context.WithTimeout(context.Background(), callT)
+			_, err := c.Monitor(mctx, m)
+			mcancel()
 			if err == nil {
 				ok = true
 				registered++
@@ -401,7 +457,11 @@ func c16Run(r *ev.Run, s c16Session, record bool) (msgs []e2e.Msg) {
 		return px.Messages()
 	}
 	// 3. the client's own transaction with a unique marker
-	tctx, tcancel := context.WithTimeout(context.Background(), 10*time.Second)
+	transactT := 10 * time.Second
+	if s.Silent {
+		transactT = 1200 * time.Millisecond
+	}
+	tctx, tcancel := context.WithTimeout(context.Background(), transactT)
 	begin()
 	res, terr := c.Transact(tctx, sys.ToOvsOp(ref, marker))
 	tcancel()
@@ -552,6 +612,12 @@ func runC16(r *ev.Run) {
 					if r.Tier == "thorough" {
 						sessions = append(sessions, c16Session{Method: m, Monitors: nm, Away: aw, Cut: k, Cut2: -1, After: true})
 					}
+				}
+			}
+			// silent peer: from message k on nothing reaches the client any more
+			for k := 0; k < n; k++ {
+				if r.Tier == "thorough" || k%2 == nm%2 {
+					sessions = append(sessions, c16Session{Method: m, Monitors: nm, Away: 7, Cut: k, Cut2: -1, Silent: true})
 				}
 			}
 			// double faults: second cut inside the reconnect handshake
